@@ -62,9 +62,9 @@ def hist(prop, mode, quick_runs, thorough_runs, quick_budget, thorough_budget, r
 CHECKS = {"C10": c10, "C09": c09, "C11": c11,
           "C14": hist("C14", "C14", 3000, 150000, 90, 1500, "DESIGN.md §4.1 C14"),
           "C08": hist("C08", "C08", 3000, 150000, 90, 1500, "DESIGN.md §4.1 C08"),
-          "C06": hist("C06", "C06", 3000, 150000, 90, 1500, "DESIGN.md §4.1 C06"),
+          "C06": hist("C06", "C06", 1500, 100000, 110, 1800, "DESIGN.md §4.1 C06"),
           "C16": hist("C16", "C16", 5000, 120000, 90, 1200, "DESIGN.md §4.1 C16", level="fault_enumeration"),
-          "C07": hist("C07", "C07", 3000, 200000, 90, 1800, "DESIGN.md §4.1 C07", c07=True)}
+          "C07": hist("C07", "C07", 2000, 200000, 110, 1800, "DESIGN.md §4.1 C07", c07=True)}
 
 
 def setup(a):
